@@ -140,7 +140,7 @@ func evalC15Cfg(c c15Cfg) *Failure {
 		}
 		return nil
 	}
-	running, dirty := false, false // dirty: a Start has failed since the last Stop
+	running, dirty := false, false         // dirty: a Start has failed since the last Stop
 	listenPlain, listenTLS := false, false // the ports that were enabled when the server was last started (the configuration may have changed since)
 	for i, op := range c.Ops {
 		when := fmt.Sprintf("after op %d (%s)", i, op)
